@@ -329,9 +329,9 @@ func runC20(c *fw.Ctx) {
 	idx := 0
 	sanit := c.Flavour == "race" || c.Flavour == "asan"
 	// mbits exhaustive: lengths 0..16
-	maxExh := 16
+	maxExh := c.Pick(16, 20)
 	if sanit {
-		maxExh = 12
+		maxExh = c.Pick(12, 16)
 	}
 	for n := 0; n <= maxExh; n++ {
 		if !c.Begin(idx + n) {
